@@ -41,8 +41,16 @@ func VerifBuildTable(opt *Options, fid uint64, entries []*kv.Entry) (*VerifSST, 
 // VerifOpenTable opens an existing SST file with fresh caches.
 func VerifOpenTable(opt *Options, fid uint64) (*VerifSST, error) {
 	lm := verifSSTManager(opt)
+	// a corrupted file makes openTable fail or panic: release the private caches either way
+	defer func() {
+		if r := recover(); r != nil {
+			_ = lm.cache.close()
+			panic(r)
+		}
+	}()
 	t := openTable(lm, utils.FileNameSSTable(lm.opt.WorkDir, fid), nil)
 	if t == nil {
+		_ = lm.cache.close()
 		return nil, errors.New("verif: openTable failed")
 	}
 	return &VerifSST{lm: lm, t: t}, nil
